@@ -77,6 +77,7 @@ def run(ctx):
                 ">= 1 mutation; distinct by (topology, numbering, tables) resp. (topology, mutations, grid, space)")
     ctx.assumptions = [
         "small-scope: TLC scope is <= 4 leaves, <= 3 internal nodes, grid <= 3, table entries 0..2",
+        "inputs have >= 2 samples (BeliefPropagation finds roots with ts.trees(root_threshold=2))",
         "outside rows are modelled up to the positive per-row scalar the code divides by (cancels in to_probabilities)",
         "guard proper_model: instances whose model has no mass (NaN row / 'dangling nodes' ValueError) are not compared",
         "the standardize() step of the wrapper is compared only when the posterior has mass beyond timepoint 0 "
@@ -93,7 +94,7 @@ def run(ctx):
                         canon=False, emit=True)
     insts2 += more
     if not q:
-        _, more = bp.io_run(ctx, "c10_d", NS=1, NI=2, G=3, vals=(0, 1), min_kids=1, emit=True)
+        _, more = bp.io_run(ctx, "c10_d", NS=2, NI=1, G=3, vals=(0, 1, 2), emit=True)
         insts += more
         for ns, ni in ((2, 1), (3, 1), (4, 1), (3, 2), (4, 3)):
             _, more = bp.io_run(ctx, f"c10_e{ns}{ni}", NS=ns, NI=ni, G=3, vals=(0, 1, 2), mode="hash",
